@@ -14,6 +14,12 @@ Definition run_tok (v : N) (lines : list str) (inds : list N) (sl sc : N) (first
   | None => Tok.Err AttrError
   end.
 
+Definition run_resume_points (v : N) (lines : list str) (inds : list N) (sl sc : N) (first : bool) : list (option (list N)) :=
+  match coll_of v with
+  | Some c => resume_points c isident isspace lines inds sl sc first
+  | None => []
+  end.
+
 Definition tokenize_text (v : N) (s : str) : Tok.result (list Token) :=
   run_tok v (Lines.split_keep s) [0] 1 0 true.
 
